@@ -3,7 +3,7 @@
 cd "$(dirname "$0")/.." || exit 2
 for p in C01 C02 C03 C04 C05 C06 C07 C08 C09 C10 C11 C12 C13 C14 C15 C16; do
   s=$(date +%s)
-  out=$(timeout 1500 ./check $p --tier "${1:-quick}" 2>&1); rc=$?
+  out=$(timeout ${2:-1500} ./check $p --tier "${1:-quick}" 2>&1); rc=$?
   e=$(date +%s)
   echo "$p exit=$rc $((e-s))s $(echo "$out" | grep -cE '^VIOLATION') violations, $(echo "$out" | grep -cE '^KNOWN-FINDING') known, $(echo "$out" | grep -cE '^NOTE') notes; $(echo "$out" | grep -E '^TOOL-ERROR' | cut -c1-200)"
 done
